@@ -663,6 +663,11 @@ def make_torrent(urls, shape="five-bytes"):
     elif shape == "empty-files":
         info = ("d", [(b"files", [("d", [(b"length", 0), (b"path", [b"a"])]), ("d", [(b"length", 0), (b"path", [b"b"])])]),
                       (b"name", b"x"), (b"piece length", 16384), (b"pieces", b"")])
+    elif shape == "extra-keys":
+        # keys of the info dictionary that imdl does not model (BEP 52 hybrid, vendor keys): the infohash on the wire is the
+        # SHA-1 of the dictionary as stored, not of imdl's typed re-serialisation (added after seeded change C12-10)
+        info = ("d", [(b"length", 5), (b"meta version", 2), (b"name", b"x"), (b"piece length", 16384), (b"pieces", b"a" * 20),
+                      (b"x-cross-seed", b"abc"), (b"zz vendor", ("d", [(b"k", [1, 2])]))])
     elif shape == "large":
         info = ("d", [(b"length", (1 << 40) + 1), (b"name", b"x"), (b"piece length", 1 << 24), (b"pieces", b"a" * 20)])
     else:
@@ -714,7 +719,7 @@ def gen_e2e(ctx):
         rng.shuffle(specs)
         # shared duplicate peers across trackers: reuse the first valid tracker's body in another one
         out.append({"name": "e2e-%d" % i, "specs": specs, "cmd": "announce",
-                    "shape": ("five-bytes", "empty-file", "empty-files", "large")[i % 4]})
+                    "shape": ("five-bytes", "empty-file", "empty-files", "large", "extra-keys")[i % 5]})
     # the same peer reported by several trackers of one torrent is printed once (added after seeded change C18-7 / C12: the set of
     # printed peers kept per tracker instead of per run)
     recs = [bytes([10, 0, 0, k]) + struct.pack(">H", 6880 + k) for k in range(1, 5)]
@@ -725,6 +730,14 @@ def gen_e2e(ctx):
                          ("overlap-and-repeat", [(0, 0, 1), (1, 2, 1)])):
         out.append({"name": "e2e-shared-peers-" + name, "cmd": "announce",
                     "specs": [{"t": "udp", "kind": "valid", "v6": False, "s1": [good_connect(rng)], "s2": [shared(*b)]} for b in bodies]})
+    # more trackers than imdl may hold open files (its limit lowered to 48): one socket at a time is enough (added after seeded
+    # change C12-11: every tracker client built before the first exchange)
+    for k, lim in ((70, 48),) + (((300, 64),) if ctx.thorough else ()):
+        out.append({"name": "e2e-%d-trackers-nofile-%d" % (k, lim), "cmd": "announce", "nofile": lim, "shape": "extra-keys",
+                    "specs": [{"t": "udp", "kind": "valid", "v6": False, "s1": [good_connect(rng)],
+                               "s2": [{"action": 1, "txid": "echo",
+                                       "body": (hdr + bytes([10, 1, j // 250, j % 250 + 1]) + struct.pack(">H", 7000 + j)).hex()}]}
+                              for j in range(k)]})
     # all trackers unusable
     out.append({"name": "e2e-only-http", "specs": [{"t": "http"}], "cmd": "announce"})
     out.append({"name": "e2e-only-portless", "specs": [{"t": "portless"}, {"t": "garbage"}], "cmd": "announce"})
@@ -749,6 +762,16 @@ def gen_e2e(ctx):
             specs.append({"t": "udp", "kind": "bad-txid", "v6": False, "s1": [good_connect(rng)],
                           "s2": [dict(good_announce(rng, 1, 6), txid="plus1")]})
         out.append({"name": "fromlink-%d" % i, "specs": specs, "cmd": "from-link", "one_thread": i % 2 == 0 or i % 4 == 1})
+    # more answering trackers than worker threads: every reply is collected, nothing waits for a reader that comes later
+    # (added after seeded change C12-12: a bounded channel drained only after the parallel loop)
+    for k, threads in ((5, 2), (24, None)):
+        specs = []
+        for j in range(k):
+            a = good_announce(rng, 1, 6)
+            a["body"] = (bytes.fromhex(a["body"])[:12] + bytes([127, 0, 0, 1]) + struct.pack(">H", 1 + j % 19)).hex()
+            specs.append({"t": "udp", "kind": "valid", "v6": False, "s1": [good_connect(rng)], "s2": [a]})
+        out.append({"name": "fromlink-%d-answering-trackers-%s-threads" % (k, threads or "default"), "specs": specs,
+                    "cmd": "from-link", "threads": threads, "timeout": 45})
     return out
 
 
@@ -787,7 +810,9 @@ def run_e2e_case(ctx, ec, tmp):
         env = {"NO_COLOR": "1", "TERM": "dumb"}
         if ec.get("one_thread"):
             env["RAYON_NUM_THREADS"] = "1"
-        rc, out, err = ctx.imdl(argv, cwd=d, env=env, timeout=120)
+        if ec.get("threads"):
+            env["RAYON_NUM_THREADS"] = str(ec["threads"])
+        rc, out, err = ctx.imdl(argv, cwd=d, env=env, timeout=ec.get("timeout", 120), nofile=ec.get("nofile"))
     finally:
         done.set()
         th.join()
